@@ -622,3 +622,10 @@ pub fn pick_index(pick: u16, len: usize) -> usize {
 pub fn boxed<S: Strategy + 'static>(s: S) -> BoxedStrategy<S::Value> {
     s.boxed()
 }
+
+/// A failure of the machinery itself (a process cannot be spawned, a file cannot be written):
+/// never a violation. Prints a HARNESS line and ends the whole run with exit code 2.
+pub fn harness_fail(msg: &str) -> ! {
+    eprintln!("HARNESS: {}", msg);
+    std::process::exit(2)
+}
